@@ -1,12 +1,12 @@
 #!/bin/sh
 # Evaluate every natural mutant (reverse patch of a fix), every seeded change and every neutral refactoring against all
 # 20 quick checks.
-# usage: selftest/evaluate_all.sh <output directory> [part ...]   parts: unfix r1 r2 r3 r4 r5 r6 r7 r8 neutral (default: all)
+# usage: selftest/evaluate_all.sh <output directory> [part ...]   parts: unfix r1 r2 r3 r4 r5 r6 r7 r8 r9 neutral (default: all)
 # (run from a stable snapshot, e.g. with `vp run`; the parts can run as separate jobs into the same directory)
 HERE="$(cd "$(dirname "$0")/.." && pwd)"
 OUT="${1:-/tmp/final_eval}"
 [ $# -gt 0 ] && shift
-PARTS="${*:-unfix r1 r2 r3 r4 r5 r6 r7 r8 neutral}"
+PARTS="${*:-unfix r1 r2 r3 r4 r5 r6 r7 r8 r9 neutral}"
 mkdir -p "$OUT/unfix" "$OUT/seeded" "$OUT/neutral"
 has() { case " $PARTS " in *" $1 "*) return 0;; esac; return 1; }
 # SHARD=i/n: only every n-th item, starting with the i-th (several jobs can share one part)
@@ -40,6 +40,7 @@ has r5 && seeded "$HERE"/seeded/R5-*
 has r6 && seeded "$HERE"/seeded/R6-*
 has r7 && seeded "$HERE"/seeded/R7-*
 has r8 && seeded "$HERE"/seeded/R8-*
+has r9 && seeded "$HERE"/seeded/R9-*
 if has neutral; then
 for d in "$HERE"/selftest/neutral/N*; do
   [ -d "$d" ] || continue
